@@ -283,14 +283,14 @@ def has_deny(ty, defs, seen=None):
     return False
 
 
-def add_extras(ty, v, defs, rng):
+def add_extras(ty, v, defs, rng, poison=False):
     """a copy of payload v in which every object that feeds a derived struct / enum carries additional unknown members
     (also the identifiers of skipped fields); objects feeding map targets and serde_json::Value are left alone"""
     k = ty[0]
     if k == "ref" and v["t"] == "map":
         d = defs[ty[1]]
         if d.get("cfrom"):
-            return add_extras(d["cfrom"]["ty"], v, defs, rng)
+            return add_extras(d["cfrom"]["ty"], v, defs, rng, poison)
         if d["kind"] == "struct":
             fs = d["fields"]
         else:
@@ -298,23 +298,24 @@ def add_extras(ty, v, defs, rng):
         ms = []
         for m in v["e"]:
             sub = [f for f in fs if m["k"] in (G.unraw(f["ident"]), camel(G.unraw(f["ident"])), G.unraw(f["ident"]).lower(), f["rename"])]
-            nv = add_extras(sub[0]["from"]["ty"] if sub and sub[0].get("from") else (sub[0]["ty"] if sub else ("phantom",)), m["v"], defs, rng) if sub else m["v"]
+            nv = add_extras(sub[0]["from"]["ty"] if sub and sub[0].get("from") else (sub[0]["ty"] if sub else ("phantom",)), m["v"], defs, rng, poison) if sub else m["v"]
             ms.append({"k": m["k"], "v": nv})
         have = {m["k"] for m in ms}
         extra = ["zz__", "extra__1"] + [G.unraw(f["ident"]) + "__" for f in fs[:1]] + [G.unraw(f["ident"]) for f in fs if f["skip"]]
         for x in extra:
             if x not in have and x != d.get("tag"):
-                ms.insert(rng.randint(0, len(ms)), {"k": x, "v": rng.choice([vnull(), vint(1), vstr("x"), vseq([])])})
+                # through the second value source the extra member may carry a value whose conversion panics: it must never be looked at
+                ms.insert(rng.randint(0, len(ms)), {"k": x, "v": rng.choice([vnull(), vint(1), vstr("x"), vseq([])] + ([V("poison")] * 3 if poison else []))})
                 have.add(x)
         return dict(v, e=ms, n=len(ms))
     if k in ("vec", "hset", "bset", "arr") and v["t"] == "seq":
-        return dict(v, e=[add_extras(ty[1], x, defs, rng) for x in v["e"]])
+        return dict(v, e=[add_extras(ty[1], x, defs, rng, poison) for x in v["e"]])
     if k == "tup" and v["t"] == "seq":
-        return dict(v, e=[add_extras(ty[1][i], x, defs, rng) if i < len(ty[1]) else x for i, x in enumerate(v["e"])])
+        return dict(v, e=[add_extras(ty[1][i], x, defs, rng, poison) if i < len(ty[1]) else x for i, x in enumerate(v["e"])])
     if k in ("opt", "box"):
-        return add_extras(ty[1], v, defs, rng)
+        return add_extras(ty[1], v, defs, rng, poison)
     if k in ("hmap", "bmap") and v["t"] == "map":
-        return dict(v, e=[{"k": m["k"], "v": add_extras(ty[2], m["v"], defs, rng)} for m in v["e"]])
+        return dict(v, e=[{"k": m["k"], "v": add_extras(ty[2], m["v"], defs, rng, poison)} for m in v["e"]])
     return v
 
 
